@@ -208,7 +208,41 @@ add('k1_types', 'swap_mismatch_wrapper', 'swap_mismatch_wrapper_h()', props=['C0
 
 
 # ---------------------------------------------------------------------------------------------------
-MODULES = ['k1_lib', 'k2_insert', 'k2_remove', 'k2_range', 'k2_misc', 'k1_handles', 'k1_types']
+# C09 lazy clones; C17 raw parts
+KIND = dict(ref='S_REF', mut='S_MUT', drained='S_DRAINED', remove='S_REMOVE', pop='S_POP')
+for kn in KIND:
+    for depth in (1, 2, 3):
+        q = (kn, depth) in {('ref', 1), ('drained', 2), ('remove', 3), ('mut', 2), ('pop', 1)}
+        add('k2_lazy', 'lazy_%s_d%d_e8' % (kn, depth), 'lazy_h::<E8>(%s, %d)' % (KIND[kn], depth), props=['C09', 'C03'], tier='q' if q else 't', cost=60)
+add('k2_lazy', 'lazy_ref_d2_e3', 'lazy_h::<E3>(S_REF, 2)', props=['C09'], tier='t', cost=300)
+add('k2_lazy', 'lazy_remove_d1_e16', 'lazy_h::<E16>(S_REMOVE, 1)', props=['C09'], tier='t', cost=60)
+for sz in ['e8', 'z0', 'e3', 'e16', 'e160']:
+    add('k1_rawparts', 'rawparts_' + sz, 'rawparts_h::<%s>(false)' % TY[sz], props=['C17'], tier=tier_for(sz, {'e8', 'z0'}), cost=20, macro='p')
+add('k1_rawparts', 'rawparts_cloneable_e8', 'rawparts_h::<E8>(true)', props=['C17'], tier='q', cost=8, macro='p')
+add('k1_rawparts', 'rawparts_cloneable_e12', 'rawparts_h::<E12>(true)', props=['C17'], tier='t', cost=20, macro='p')
+add('k1_rawparts', 'rawparts_empty_e8', 'rawparts_empty_h::<E8>()', props=['C17'], tier='q', cost=2, macro='p')
+add('k1_rawparts', 'rawparts_empty_d24', 'rawparts_empty_h::<D24>()', props=['C17'], tier='q', cost=2, macro='p')
+add('k1_rawparts', 'rawparts_empty_a64', 'rawparts_empty_h::<A64>()', props=['C17'], tier='q', cost=2, macro='p')
+
+
+# ---------------------------------------------------------------------------------------------------
+# K1 HeapMem against the allocator protocol (C18, C10, C12, C17)
+HEAP_T = ['e8', 'z0', 'e3', 'e12', 'e16', 'a64', 'e160', 'e1']
+for sz in HEAP_T:
+    q = sz in ('e8', 'z0', 'e3', 'a64')
+    add('k1_heap', 'heap_protocol_' + sz, 'heap_protocol_h::<%s>()' % TY[sz], props=['C18', 'C10', 'C12'], tier='q' if q else 't', cost=20, macro='ha')
+    add('k1_heap', 'heap_expand_' + sz, 'heap_expand_h::<%s>()' % TY[sz], props=['C18', 'C10'], tier='q' if sz in ('e8', 'e3') else 't', cost=20, macro='ha')
+    add('k1_heap', 'heap_with_size_' + sz, 'heap_with_size_h::<%s>()' % TY[sz], props=['C18', 'C10'], tier='q' if sz in ('e8', 'z0') else 't', cost=5, macro='ha')
+    add('k1_heap', 'heap_rawparts_' + sz, 'heap_rawparts_h::<%s>()' % TY[sz], props=['C17', 'C18'], tier='q' if sz in ('e8', 'z0') else 't', cost=5, macro='ha')
+    if sz != 'z0':
+        add('k1_heap', 'heap_invalid_' + sz, 'heap_invalid_h::<%s>()' % TY[sz], props=['C18'], tier='q' if sz in ('e8', 'e3', 'a64') else 't', kind='panic',
+            attrs=['#[kani::should_panic]'], allow=[r'unwrap', r'LayoutError', r'capacity overflow', r'expect', r'Result::<.*>::unwrap'], cost=10, macro='ha')
+        add('k1_heap', 'heap_expand_invalid_' + sz, 'heap_expand_invalid_h::<%s>()' % TY[sz], props=['C18', 'C10'], tier='q' if sz in ('e8', 'e3') else 't', kind='panic',
+            attrs=['#[kani::should_panic]'], allow=[r'unwrap', r'LayoutError', r'capacity overflow', r'expect', r'Result::<.*>::unwrap'], cost=10, macro='ha')
+
+
+# ---------------------------------------------------------------------------------------------------
+MODULES = ['k1_lib', 'k2_insert', 'k2_remove', 'k2_range', 'k2_misc', 'k1_handles', 'k1_types', 'k2_lazy', 'k1_rawparts', 'k1_heap']
 
 
 def write_instances(kv_dir, selected):
